@@ -256,7 +256,11 @@ func (prop) Generate(r *prng.Rand, phase string) any {
 				if r.Chance(pWrong) {
 					l = otherLayout()
 				}
-				op.Part = cfg.Gen(r, mgeom.LR, l, 0)
+				if l == 0 {
+					op.Part = (&mgeom.Geom{T: mgeom.LR, L: 0}).Norm() // a ring created without a layout holds no coordinates
+				} else {
+					op.Part = cfg.Gen(r, mgeom.LR, l, 0)
+				}
 			case 1:
 				op.K = "pushx"
 				op.I = r.Intn(2)
